@@ -182,7 +182,7 @@ func (s *Stmt) GetRewriteSQL(noBackslashEscapes bool) (string, error) {
 }
 
 func (se *SessionExecutor) handleStmtExecute(reqCtx *util.RequestContext, data []byte) (*mysql.Result, error) {
-	if len(data) < 9 {
+	if len(data) < 4 {
 		return nil, mysql.ErrMalformPacket
 	}
 
@@ -198,6 +198,12 @@ func (se *SessionExecutor) handleStmtExecute(reqCtx *util.RequestContext, data [
 	// whatever happens to this execution, the next one starts without bound values:
 	// a packet refused halfway through binding must not leave its first values behind
 	defer s.ResetParams()
+
+	// (checked after the statement is known: a packet cut inside its header is a failed
+	// execution of that statement as well, long data sent for it must not survive it)
+	if len(data) < 9 {
+		return nil, mysql.ErrMalformPacket
+	}
 
 	flag := data[pos] & mysql.CursorTypeReadOnly
 	pos++
